@@ -55,7 +55,10 @@ func (s jsonSet) hashCode(options []Option) [8]byte {
 		hc := v.hashCode(options)
 		sMap[hc] = true
 	}
-	hashes := make(hashCodes, 0, len(sMap))
+	hashes := make(hashCodes, 0, len(sMap)+1)
+	// We start with a constant hash to distinguish an empty set
+	// from an empty string, multiset or object identity.
+	hashes = append(hashes, [8]byte{0x37, 0xE2, 0x5B, 0x90, 0x1D, 0xC6, 0xA4, 0x6F}) // randomly chosen bytes
 	for hc := range sMap {
 		hashes = append(hashes, hc)
 	}
